@@ -15,7 +15,7 @@ ArgSets(m) ==
   CASE m \in {"WithNetworkInstance", "WithNextHopNetworkInstance", "WithNextHopGroupNetworkInstance"} -> {<<"DEFAULT">>, <<"vrf1">>}
     [] m \in {"WithIndex", "WithID", "WithBackupNHG", "WithNextHopGroup"} -> {<<"1">>, <<"2">>}
     [] m = "WithLabel" -> {<<"100">>, <<"101">>}
-    [] m = "WithElectionID" -> {<<"1", "0">>, <<"3", "1">>}
+    [] m = "WithElectionID" -> {<<"1", "0">>, <<"3", "1">>, <<"0", "0">>}   \* the last: an explicit all-zero id (still "its own")
     [] m = "WithIPAddress" -> {<<"192.0.2.1">>, <<"192.0.2.2">>}
     [] m = "WithInterfaceRef" -> {<<"eth0">>, <<"eth1">>}
     [] m = "WithSubinterfaceRef" -> {<<"eth0", "1">>, <<"eth1", "2">>}
